@@ -3,9 +3,9 @@ package main
 import (
 	"encoding/json"
 	"fmt"
-	"strings"
 	"math/big"
 	"os"
+	"strings"
 	"time"
 
 	"cosmossdk.io/math"
@@ -16,11 +16,11 @@ import (
 	sdk "github.com/cosmos/cosmos-sdk/types"
 	authtypes "github.com/cosmos/cosmos-sdk/x/auth/types"
 	"github.com/ethereum/go-ethereum/common"
+	"github.com/goatnetwork/goat/verifsim/simrt"
 	bitcointypes "github.com/goatnetwork/goat/x/bitcoin/types"
 	goattypes "github.com/goatnetwork/goat/x/goat/types"
 	lockingtypes "github.com/goatnetwork/goat/x/locking/types"
 	relayertypes "github.com/goatnetwork/goat/x/relayer/types"
-	"github.com/goatnetwork/goat/verifsim/simrt"
 )
 
 // ValActor is a validator identity known to the simulator.
@@ -76,34 +76,34 @@ type Violation struct {
 
 // World is one simulated deployment.
 type World struct {
-	Seed      uint64
-	Cfg       Config
-	Dir       string
-	Nodes     []*Node
-	EL        *ELChain
-	Cmt       *Cmt
-	Btc       *BtcSim
-	Vals      []*ValActor
-	Members   []*RelMember
-	BtcKeys   []*SecpKey // relayer bitcoin keys (index 0 = genesis key)
-	Users     []common.Address
-	Stats     *Stats
-	Viol      []*Violation
-	Notes     []string
-	StepNo    int
-	SchedSalt uint64
-	M         *Models
-	G         *genState
-	R         *RelState
-	PendingVoted  int
-	PendingHashes int
-	JunkVotes     int
-	Tainted       bool
-	ProbeTxs      [][]byte
-	TraceH        []byte
-	Seen      map[string]bool
-	InitReq   *abci.RequestInitChain
-	Trace     bool
+	Seed               uint64
+	Cfg                Config
+	Dir                string
+	Nodes              []*Node
+	EL                 *ELChain
+	Cmt                *Cmt
+	Btc                *BtcSim
+	Vals               []*ValActor
+	Members            []*RelMember
+	BtcKeys            []*SecpKey // relayer bitcoin keys (index 0 = genesis key)
+	Users              []common.Address
+	Stats              *Stats
+	Viol               []*Violation
+	Notes              []string
+	StepNo             int
+	SchedSalt          uint64
+	M                  *Models
+	G                  *genState
+	R                  *RelState
+	PendingVoted       int
+	PendingHashes      int
+	JunkVotes          int
+	Tainted            bool
+	ProbeTxs           [][]byte
+	TraceH             []byte
+	Seen               map[string]bool
+	InitReq            *abci.RequestInitChain
+	Trace              bool
 	FirstViolationOnly bool
 }
 
@@ -130,6 +130,7 @@ var traceFile = func() *os.File {
 	}
 	return nil
 }()
+
 func (w *World) probe(kind string) { w.Stats.Probes[kind]++ }
 
 func (w *World) violate(prop, oracle, shape, format string, args ...any) {
